@@ -101,7 +101,9 @@ func (c *vsFillerCommit) Previous() types.HashHeight {
 	}
 	return vsFillerID(c.first, c.i-1)
 }
-func (c *vsFillerCommit) Serialize() ([]byte, error) { return []byte(fmt.Sprintf("filler:%s:%d", c.first, c.i)), nil }
+func (c *vsFillerCommit) Serialize() ([]byte, error) {
+	return []byte(fmt.Sprintf("filler:%s:%d", c.first, c.i)), nil
+}
 
 type vsFillerTx struct {
 	c *vsFillerCommit
@@ -131,7 +133,9 @@ func (c *vsTallCommit) Previous() types.HashHeight {
 	}
 	return vsID(c.path[:len(c.path)-1])
 }
-func (c *vsTallCommit) Serialize() ([]byte, error) { return []byte("entry:" + strings.Join(c.path, "/")), nil }
+func (c *vsTallCommit) Serialize() ([]byte, error) {
+	return []byte("entry:" + strings.Join(c.path, "/")), nil
+}
 
 type vsTallTx struct {
 	c *vsTallCommit
@@ -495,8 +499,8 @@ func vsCheckRaw(conc vsConc, dir string, obs vsObs) ([]vsMismatch, error) {
 }
 
 type vsTarget struct {
-	tall  int    // >0: "tall" concretisation - `tall` filler commits (touching an unrelated key) sit between abstract height 1 and 2,
-	             // so that views of height 1 are far behind the frontier (the store's second-level view cache)
+	tall int // >0: "tall" concretisation - `tall` filler commits (touching an unrelated key) sit between abstract height 1 and 2,
+	// so that views of height 1 are far behind the frontier (the store's second-level view cache)
 	kind  string // "ldb" | "mem"
 	dir   string
 	m     db.Manager
